@@ -441,3 +441,296 @@ theorem nativeAwait_idem_susp (I : Obj ι) (s : I.σ) :
   run_eq_of_bisim _ _ (RIdem I) (idem_step I) ds _ _ (RIdem.susp _)
 
 end Asynkit.Proto
+
+namespace Asynkit.Proto
+variable {ι : Type}
+
+/-! ### as_coroutine, coro_await -/
+
+theorem asCoroutine_equiv0 (I : Obj ι) : Equiv0 (asCoroutineO I) (nativeAwaitO I) :=
+  (nativeAwait_congr0 (coroStart_equiv0 I)).trans (nativeAwait_idem I).toEquiv0
+
+inductive RCA (I : Obj ι) : EState (Option (EState (Pc × CS I.σ))) → EState (EState (Pc × CS I.σ)) → Prop where
+  | susp (it : EState (Pc × CS I.σ)) : RCA I (.susp (some it)) (.susp it)
+
+theorem coroAwait_step (I : Obj ι) (a : (coroAwaitO I).σ) (t : (nativeAwaitO (coroStartO I)).σ) (d : Drive)
+    (hR : RCA I a t) :
+    ((coroAwaitO I).step a d).2 = ((nativeAwaitO (coroStartO I)).step t d).2 ∧
+    (coroAwaitO I).view ((coroAwaitO I).step a d).1
+      = (nativeAwaitO (coroStartO I)).view ((nativeAwaitO (coroStartO I)).step t d).1 ∧
+    (∀ y, ((coroAwaitO I).step a d).2 = .yield y →
+      RCA I ((coroAwaitO I).step a d).1 ((nativeAwaitO (coroStartO I)).step t d).1) := by
+  cases hR with
+  | susp it =>
+    cases d with
+    | send v =>
+      rcases h : (nativeAwaitB (coroStartO I)).resume it (.send v) with ⟨it', o⟩
+      rcases o with y | v | e
+      · simp [Obj.step, coroAwaitO, nativeAwaitO, coroObj, envObj, coroAwaitB, envAfter, EState.body, h]
+        exact RCA.susp it'
+      · simp [Obj.step, coroAwaitO, nativeAwaitO, coroObj, envObj, coroAwaitB, envAfter, EState.body, h]
+      · cases e <;>
+        simp [Obj.step, coroAwaitO, nativeAwaitO, coroObj, envObj, coroAwaitB, envAfter, EState.body, h]
+    | throw e =>
+      rcases h : (nativeAwaitB (coroStartO I)).resume it (.throw e) with ⟨it', o⟩
+      rcases o with y | v | e'
+      · simp [Obj.step, coroAwaitO, nativeAwaitO, coroObj, envObj, coroAwaitB, envAfter, EState.body, h]
+        exact RCA.susp it'
+      · simp [Obj.step, coroAwaitO, nativeAwaitO, coroObj, envObj, coroAwaitB, envAfter, EState.body, h]
+      · cases e' <;>
+        simp [Obj.step, coroAwaitO, nativeAwaitO, coroObj, envObj, coroAwaitB, envAfter, EState.body, h]
+    | close =>
+      rcases h : (nativeAwaitB (coroStartO I)).resume it (.throw .genExit) with ⟨it', o⟩
+      rcases o with y | v | e'
+      · simp [Obj.step, coroAwaitO, nativeAwaitO, coroObj, envObj, coroAwaitB, envAfter, envClosed, EState.body, h]
+      · simp [Obj.step, coroAwaitO, nativeAwaitO, coroObj, envObj, coroAwaitB, envAfter, envClosed, EState.body, h]
+      · cases e' <;>
+        simp [Obj.step, coroAwaitO, nativeAwaitO, coroObj, envObj, coroAwaitB, envAfter, envClosed, EState.body, h]
+
+theorem coroAwait_susp (I : Obj ι) (it : EState (Pc × CS I.σ)) :
+    TrEq (coroAwaitO I) (nativeAwaitO (coroStartO I)) (.susp (some it)) (.susp it) := fun ds =>
+  run_eq_of_bisim _ _ (RCA I) (coroAwait_step I) ds _ _ (RCA.susp it)
+
+/-- a suspended `coro_await` behaves as delegation to the inner object -/
+theorem coroAwait_loop_treq (I : Obj ι) (cs : CS I.σ) :
+    TrEq (coroAwaitO I) (nativeAwaitO I) (.susp (some (.susp (.loop, cs)))) (.susp cs.coro) :=
+  ((coroAwait_susp I _).trans
+    (nativeAwait_congr_susp _ _ _ _ (coroStart_loop_treq I (CS.new I) cs))).trans
+    (nativeAwait_idem_susp I cs.coro)
+
+theorem coroAwait_equiv (I : Obj ι) : Equiv (coroAwaitO I) (nativeAwaitO I) := by
+  intro ds
+  cases ds with
+  | nil => rfl
+  | cons d ds =>
+    rw [run_cons, run_cons]
+    cases d with
+    | send v =>
+      by_cases hz : v = 0
+      · subst hz
+        rcases h : I.send I.init 0 with ⟨s', o⟩
+        rcases o with y | v | e
+        · have h1 : (coroAwaitO I).step (coroAwaitO I).init (.send 0)
+              = ((EState.susp (some (EState.susp (Pc.loop, (⟨s', none⟩ : CS I.σ)))) :
+                  EState (Option (EState (Pc × CS I.σ)))), Out.yield y) := by
+            simp [coroAwaitO, coroAwaitB]
+            cssimp [h]
+          have h2 : (nativeAwaitO I).step (nativeAwaitO I).init (.send 0)
+              = ((EState.susp s' : EState I.σ), Out.yield y) := by
+            cssimp [h]
+          rw [h1, h2]
+          simp only
+          congr 1
+          exact coroAwait_loop_treq I ⟨s', none⟩ ds
+        · simp [coroAwaitO, coroAwaitB]
+          cssimp [h]
+        · cases e <;> (simp [coroAwaitO, coroAwaitB]; cssimp [h])
+      · simp [Obj.step, coroAwaitO, nativeAwaitO, coroObj, envObj, coroAwaitB, nativeAwaitB, hz, EState.body]
+    | throw e => simp [Obj.step, coroAwaitO, nativeAwaitO, coroObj, envObj, coroAwaitB, nativeAwaitB, EState.body]
+    | close => simp [Obj.step, coroAwaitO, nativeAwaitO, coroObj, envObj, coroAwaitB, nativeAwaitB, EState.body]
+
+end Asynkit.Proto
+
+namespace Asynkit.Proto
+variable {ι : Type}
+
+/-! ### Monitor._asend / aawait / BoundMonitor without out-of-band traffic -/
+
+/-- the awaited coroutine does not itself raise `OOBData` from its first step (the one place
+    where `_asend` treats that exception specially) -/
+def NoOOBFirst (I : Obj ι) : Prop := ∀ d, (I.send I.init 0).2 ≠ .raise (.oobData d)
+
+inductive RMon (I : Obj ι) : EState (MonSt I.σ) → EState I.σ → Prop where
+  | created : RMon I (.created { pc := .start, mon := 0, coro := I.init }) (.created I.init)
+  | susp (m : Int) (s : I.σ) : RMon I (.susp { pc := .loop, mon := m, coro := s }) (.susp s)
+
+macro "msimp" "[" ts:Lean.Parser.Tactic.simpLemma,* "]" : tactic =>
+  `(tactic| simp [Obj.step, monitorAsendO, monitorAsendB, nativeAwaitO, genObj, coroObj, envObj, nativeAwaitB,
+      normStop, envAfter, envClosed, EState.body, $ts,*])
+
+theorem monitor_step (I : Obj ι) (hno : NoOOBFirst I) (a : (monitorAsendO I 0 0).σ) (t : (nativeAwaitO I).σ)
+    (d : Drive) (hR : RMon I a t) :
+    ((monitorAsendO I 0 0).step a d).2 = ((nativeAwaitO I).step t d).2 ∧
+    (monitorAsendO I 0 0).view ((monitorAsendO I 0 0).step a d).1
+      = (nativeAwaitO I).view ((nativeAwaitO I).step t d).1 ∧
+    (∀ y, ((monitorAsendO I 0 0).step a d).2 = .yield y →
+      RMon I ((monitorAsendO I 0 0).step a d).1 ((nativeAwaitO I).step t d).1) := by
+  cases hR with
+  | created =>
+    cases d with
+    | send v =>
+      by_cases hv : v = 0
+      · subst hv
+        have hno' := hno
+        unfold NoOOBFirst at hno'
+        rcases h : I.send I.init 0 with ⟨s', o⟩
+        rw [h] at hno'
+        rcases o with y | v | e
+        · msimp [h]
+          exact RMon.susp 1 s'
+        · msimp [h]
+        · cases e <;> first | (exfalso; exact hno' _ rfl) | msimp [h]
+      · msimp [hv]
+    | throw e => msimp []
+    | close => msimp []
+  | susp m s =>
+    cases d with
+    | send v =>
+      rcases h : I.send s v with ⟨s', o⟩
+      rcases o with y | v | e
+      · msimp [h]
+        exact RMon.susp m s'
+      · msimp [h]
+      · cases e <;> msimp [h]
+    | throw e =>
+      by_cases he : e = .genExit
+      · subst he
+        rcases h : I.close s with ⟨s', o⟩
+        rcases o with y | v | e
+        · msimp [h]
+        · msimp [h]
+        · cases e <;> msimp [h]
+      · rcases h : I.throw s e with ⟨s', o⟩
+        rcases o with y | v | e'
+        · cases e <;> simp_all [Obj.step, monitorAsendO, monitorAsendB, nativeAwaitO, genObj, coroObj, envObj,
+            nativeAwaitB, normStop, envAfter, envClosed, EState.body]
+          all_goals exact RMon.susp m s'
+        · cases e <;> simp_all [Obj.step, monitorAsendO, monitorAsendB, nativeAwaitO, genObj, coroObj, envObj,
+            nativeAwaitB, normStop, envAfter, envClosed, EState.body]
+        · cases e <;> cases e' <;> simp_all [Obj.step, monitorAsendO, monitorAsendB, nativeAwaitO, genObj,
+            coroObj, envObj, nativeAwaitB, normStop, envAfter, envClosed, EState.body]
+    | close =>
+      rcases h : I.close s with ⟨s', o⟩
+      rcases o with y | v | e
+      · msimp [h]
+      · msimp [h]
+      · cases e <;> msimp [h]
+
+theorem monitorAsend_equiv (I : Obj ι) (hno : NoOOBFirst I) : Equiv (monitorAsendO I 0 0) (nativeAwaitO I) :=
+  fun ds => run_eq_of_bisim _ _ (RMon I) (monitor_step I hno) ds _ _ RMon.created
+
+theorem monitorAawait_equiv (I : Obj ι) (hno : NoOOBFirst I) : Equiv (monitorAawaitO I) (nativeAwaitO I) :=
+  TrEq.trans (nativeAwait_congr (monitorAsend_equiv I hno) rfl) (nativeAwait_idem I)
+
+theorem boundMonitor_equiv (I : Obj ι) (hno : NoOOBFirst I) : Equiv (boundMonitorO I) (nativeAwaitO I) :=
+  monitorAawait_equiv I hno
+
+/-- the excluded case: a coroutine whose first step raises OOBData gets RuntimeError from the
+    monitor, OOBData from a native await -/
+theorem monitorAsend_oob_first (I : Obj ι) (d : Val) (h : (I.send I.init 0).2 = .raise (.oobData d)) :
+    (monitorAsendO I 0 0).outs (monitorAsendO I 0 0).init [.send 0] = [.raise (.runtime rtRaisedOOB)] ∧
+    (nativeAwaitO I).outs (nativeAwaitO I).init [.send 0] = [.raise (.oobData d)] := by
+  rcases hh : I.send I.init 0 with ⟨s', o⟩
+  rw [hh] at h
+  simp only at h
+  subst h
+  constructor <;> simp [Obj.outs, Obj.run] <;> msimp [hh]
+
+end Asynkit.Proto
+
+namespace Asynkit.Proto
+variable {ι : Type}
+
+/-! ### CoroStart.athrow / aclose -/
+
+inductive RAT (I : Obj ι) : EState (CS I.σ ⊕ EState (Pc × CS I.σ)) → EState (EState (Pc × CS I.σ)) → Prop where
+  | susp (it : EState (Pc × CS I.σ)) : RAT I (.susp (.inr it)) (.susp it)
+
+macro "asimp" "[" ts:Lean.Parser.Tactic.simpLemma,* "]" : tactic =>
+  `(tactic| simp [Obj.step, coroStartAthrowO, coroStartAthrowB, athrowView, nativeAwaitO, coroObj, envObj,
+      envAfter, envClosed, EState.body, $ts,*])
+
+theorem athrow_step (I : Obj ι) (cs : CS I.σ) (e : Exc) (a : (coroStartAthrowO I cs e).σ)
+    (t : (nativeAwaitO (coroStartAwaitO I cs)).σ) (d : Drive) (hR : RAT I a t) :
+    ((coroStartAthrowO I cs e).step a d).2 = ((nativeAwaitO (coroStartAwaitO I cs)).step t d).2 ∧
+    (coroStartAthrowO I cs e).view ((coroStartAthrowO I cs e).step a d).1
+      = (nativeAwaitO (coroStartAwaitO I cs)).view ((nativeAwaitO (coroStartAwaitO I cs)).step t d).1 ∧
+    (∀ y, ((coroStartAthrowO I cs e).step a d).2 = .yield y →
+      RAT I ((coroStartAthrowO I cs e).step a d).1 ((nativeAwaitO (coroStartAwaitO I cs)).step t d).1) := by
+  cases hR with
+  | susp it =>
+    cases d with
+    | send v =>
+      rcases h : (nativeAwaitB (coroStartAwaitO I cs)).resume it (.send v) with ⟨it', o⟩
+      rcases o with y | v | e1
+      · asimp [h]
+        exact ⟨rfl, RAT.susp it'⟩
+      · asimp [h]; rfl
+      · cases e1 <;> asimp [h] <;> rfl
+    | throw e0 =>
+      rcases h : (nativeAwaitB (coroStartAwaitO I cs)).resume it (.throw e0) with ⟨it', o⟩
+      rcases o with y | v | e1
+      · asimp [h]
+        exact ⟨rfl, RAT.susp it'⟩
+      · asimp [h]; rfl
+      · cases e1 <;> asimp [h] <;> rfl
+    | close =>
+      rcases h : (nativeAwaitB (coroStartAwaitO I cs)).resume it (.throw .genExit) with ⟨it', o⟩
+      rcases o with y | v | e1
+      · asimp [h]; rfl
+      · asimp [h]; rfl
+      · cases e1 <;> asimp [h] <;> rfl
+
+end Asynkit.Proto
+
+namespace Asynkit.Proto
+variable {ι : Type}
+
+theorem athrow_susp (I : Obj ι) (cs : CS I.σ) (e : Exc) (it : EState (Pc × CS I.σ)) :
+    TrEq (coroStartAthrowO I cs e) (nativeAwaitO (coroStartAwaitO I cs)) (.susp (.inr it)) (.susp it) :=
+  fun ds => run_eq_of_bisim _ _ (RAT I) (athrow_step I cs e) ds _ _ (RAT.susp it)
+
+theorem athrow_loop_treq (I : Obj ι) (cs cs' : CS I.σ) (e : Exc) :
+    TrEq (coroStartAthrowO I cs e) (nativeAwaitO I) (.susp (.inr (.susp (.loop, cs')))) (.susp cs'.coro) :=
+  ((athrow_susp I cs e _).trans
+    (nativeAwait_congr_susp _ _ _ _ (coroStart_loop_treq I cs cs'))).trans
+    (nativeAwait_idem_susp I cs'.coro)
+
+theorem nativeAwaitB_throw (I : Obj ι) (s : I.σ) (e : Exc) (he : e ≠ .genExit) :
+    (nativeAwaitB I).resume s (.throw e) = ((I.throw s e).1, normStop (I.throw s e).2) := by
+  cases e <;> first | exact absurd rfl he | rfl
+
+theorem nativeAwaitO_throw_susp (I : Obj ι) (s : I.σ) (e : Exc) (he : e ≠ .genExit) :
+    (nativeAwaitO I).step (EState.susp s) (.throw e)
+      = envAfter ((I.throw s e).1, normStop (I.throw s e).2) := by
+  show envAfter ((nativeAwaitB I).resume s (.throw e)) = _
+  rw [nativeAwaitB_throw I s e he]
+  rfl
+
+/-- `cs.athrow(e)` (driven from its first `send(None)`) on a CoroStart holding a suspended
+    coroutine = `throw(e)` on a native await suspended on that coroutine, for `e ≠ GeneratorExit`. -/
+theorem athrow_treq (I : Obj ι) (cs : CS I.σ) (e : Exc) (he : e ≠ .genExit) (ds : List Drive) :
+    (coroStartAthrowO I cs e).run (coroStartAthrowO I cs e).init (.send 0 :: ds)
+      = (nativeAwaitO I).run (.susp cs.coro) (.throw e :: ds) := by
+  rw [run_cons]
+  refine Eq.trans ?_ (run_cons (nativeAwaitO I) (EState.susp cs.coro) (.throw e) ds).symm
+  rcases h : I.throw cs.coro e with ⟨s', o⟩
+  rcases o with y | v | e1
+  · have h1 : (coroStartAthrowO I cs e).step (coroStartAthrowO I cs e).init (.send 0)
+        = ((EState.susp (Sum.inr (EState.susp (Pc.loop, (⟨s', none⟩ : CS I.σ)))) :
+            EState (CS I.σ ⊕ EState (Pc × CS I.σ))), Out.yield y) := by
+      simp [coroStartAthrowO, coroStartAthrowB]
+      cssimp [h]
+    have h2 : (nativeAwaitO I).step (EState.susp cs.coro) (.throw e)
+        = ((EState.susp s' : EState I.σ), Out.yield y) := by
+      rw [nativeAwaitO_throw_susp I _ e he, h]; rfl
+    rw [h1, h2]
+    simp only
+    congr 1
+    exact athrow_loop_treq I cs ⟨s', none⟩ e ds
+  · have h1 : (coroStartAthrowO I cs e).step (coroStartAthrowO I cs e).init (.send 0)
+        = ((EState.done (Sum.inr (EState.done (Pc.start, (⟨s', none⟩ : CS I.σ)))) :
+            EState (CS I.σ ⊕ EState (Pc × CS I.σ))), Out.ret v) := by
+      simp [coroStartAthrowO, coroStartAthrowB]
+      cssimp [h]
+    have h2 : (nativeAwaitO I).step (EState.susp cs.coro) (.throw e)
+        = ((EState.done s' : EState I.σ), Out.ret v) := by
+      rw [nativeAwaitO_throw_susp I _ e he, h]; rfl
+    rw [h1, h2]
+    rfl
+  · rw [nativeAwaitO_throw_susp I _ e he, h]
+    cases e1 <;> (
+      simp [coroStartAthrowO, coroStartAthrowB]
+      cssimp [h, athrowView])
+
+end Asynkit.Proto
